@@ -29,9 +29,15 @@ type VD = { k: "d"; d: Date };
 type UD = VB | VD;
 type InlineD = { k: "p"; p: number } | { k: "dd"; d: Date };
 type HD = { ud: UD; i: InlineD };
-parse.buildParsers<{ Tree: Tree; A: A; B: B; VA: VA; VB: VB; U: U; Holder: Holder; Inline: Inline; VAo: VAo; Bad: Bad; P2: P2; VD: VD; UD: UD; InlineD: InlineD; HD: HD }>();
+type A2 = { b: B2; m: Map<string, number> };
+type B2 = { x: number; a?: A2 };
+type PB2 = { b: B2 };
+type toString = { t: number };
+type A$$B = { d: number };
+type HN = { p: toString; q: A$$B };
+parse.buildParsers<{ Tree: Tree; A: A; B: B; VA: VA; VB: VB; U: U; Holder: Holder; Inline: Inline; VAo: VAo; Bad: Bad; P2: P2; VD: VD; UD: UD; InlineD: InlineD; HD: HD; A2: A2; B2: B2; PB2: PB2; HN: HN }>();
 """
-ALL = ["Tree", "A", "B", "VA", "VB", "U", "Holder", "Inline", "VAo", "Bad", "P2", "VD", "UD", "InlineD", "HD"]
+ALL = ["Tree", "A", "B", "VA", "VB", "U", "Holder", "Inline", "VAo", "Bad", "P2", "VD", "UD", "InlineD", "HD", "A2", "B2", "PB2", "HN"]
 CFGS = [
     {"name": "defs", "ov": False, "refPathTemplate": "#/$defs/{name}", "definitionContainerKey": "$defs", "overrides": None},
     {"name": "openapi", "ov": False, "refPathTemplate": "#/components/schemas/{name}", "definitionContainerKey": None, "overrides": None},
